@@ -61,7 +61,7 @@ import re
 import shutil
 
 from vlib import aslrun, isa, isa_hist, tlc, tracecheck
-from vlib.common import CheckError, Phase, log, pmap, scratch, seed
+from vlib.common import CheckError, Phase, log, scratch, seed
 
 PHASE_NAME = "isa8051"
 NAME = "MCS-51"
@@ -109,112 +109,139 @@ def gen_x(salt, deep, timeout=900):
 
 
 # ------------------------------------------------------------------------------------------------ (X) replay
-def x_source(case):
-    """cpu / [org] / definition lines / [context statement] / statement -> (text, line of the statement, line of the context)"""
-    lines = ["\tcpu\t8051"]
+X_ACC_CHUNK = 300     # expected-accepted cases per source
+X_CHUNK = 40          # expected-rejected cases per screening source
+
+
+def x_lines(case, lines):
+    """appends [org] / definition lines / [context statement] / statement; returns (statement line, context line or None,
+    definition lines)"""
     if case["org"] >= 0:
         lines.append("\torg\t%d" % case["org"])
+    dl = []
     for d in case["pre"]:
         lines.append("%s\t%s\t%s" % (d[0], d[1], d[2]))
+        dl.append(len(lines))
     cln = None
     x = isa_hist.ctx_of(case)
     if x is not None:
         lines.append(isa.stmt_text(x))
         cln = len(lines)
     lines.append(isa.stmt_text(case))
-    return "\n".join(lines) + "\n", len(lines), cln
+    return len(lines), cln, dl
 
 
-def _warned(res, ln):
-    lp = isa.last_pass(res.trace or [])
-    return any(e["e"] == "diag" and e.get("pass") == lp and e["line"] == ln and e.get("cls") == "warning"
-               for e in (res.trace or []))
+def x_source(cases):
+    lines = ["\tcpu\t8051"]
+    where = [x_lines(c, lines) for c in cases]
+    return "\n".join(lines) + "\n", where
+
+
+def x_observe(res, where):
+    """what the run shows for one case: units of the statement and of its context, errors on their lines and on the
+    definition lines, whether the operand drew a warning"""
+    ln, cln, dl = where
+    em, errs = isa.emitted_by_line(res.trace, CFG)
+    lp = isa.last_pass(res.trace)
+    warned = any(e["e"] == "diag" and e.get("pass") == lp and e["line"] in [ln] + dl and e.get("cls") == "warning"
+                 for e in res.trace)
+    o = {"em": em.get(ln, []), "errs": errs.get(ln, []), "xem": em.get(cln, []) if cln else [],
+         "xerrs": errs.get(cln, []) if cln else [], "derrs": [n for l in dl for n in errs.get(l, [])], "warned": warned}
+    if o["derrs"]:
+        # the operand is written in the definition line: an error there rejects it.  The assembly stops after this pass;
+        # what the statement emitted for the (then undefined, "forward") symbol never reaches a code file
+        o["em"], o["errs"] = [], (o["derrs"] if res.rc != 0 and res.p is None else [])
+    return o
+
+
+XGROUPS = {}
 
 
 def x_key(case, kind, warned=False):
+    g = ("bit-notation" if case["sp"] else "generic-jmp-call", case["zone"] or "-", kind)
+    XGROUPS[g] = XGROUPS.get(g, 0) + 1
     return {"isa": NAME, "ext": "bit-notation" if case["sp"] else "generic-jmp-call", "form": case["id"], "kind": kind,
             "zone": case["zone"], "spelling": case["sp"], "warned": bool(warned),
             "pc_low": case["pc"] % 256 if case["pc"] >= 0 else -1}
 
 
-def judge_x(rep, case, src, ln, cln, res, em, errs, xem, xerrs):
-    """the same decisions as c14.judge (expected units / expected rejection), on a case of Isa8051X; the context statement
-    first (it is a legal statement of the table)"""
-    stmt = " ".join(isa.stmt_text(case).split("\t")).strip()
-    where = (" at %d" % case["pc"]) if case["pc"] >= 0 else ""
-    if case["pre"]:
-        where += " after the definition [%s]" % "; ".join(" ".join(d) for d in case["pre"])
+def decide_x(case, o, rc):
+    """the same decisions as c14.judge (expected units / expected rejection) on a case of Isa8051X, the context statement
+    first (it is a legal statement of the table): None if the case shows what TLC printed, else (kind, text, warned)"""
     x = isa_hist.ctx_of(case)
-    if x is not None:
-        where += " on the line directly after the statement '%s'" % " ".join(isa.stmt_text(x).split("\t")).strip()
-    files = {"a.asm": src, "out.txt": res.out + res.err}
-    if res.timeout or res.sig is not None:
-        rep.violation("%s: assembler crashed/hung on '%s'" % (NAME, stmt), case=case, files=files, key=x_key(case, "crash"))
-        return False
-    if x is not None and (xerrs or xem != x["units"]):
-        rep.violation("%s: context statement '%s' assembled to %s (errors %s), the instruction set prescribes %s"
-                      % (NAME, isa.stmt_text(x).strip(), xem, xerrs, x["units"]), case=case, files=files,
-                      key=dict(x_key(case, "context"), form=x["id"] + " (as context statement)"))
-        return False
-    warned = _warned(res, ln)
+    if x is not None and (o["xerrs"] or o["xem"] != x["units"]):
+        return ("context", "context statement '%s' assembled to %s (errors %s), the instruction set prescribes %s"
+                % (isa.stmt_text(x).strip(), o["xem"], o["xerrs"], x["units"]), False)
+    em, errs = o["em"], o["errs"]
     if case["exp"] == "units":
         adm = [list(u) for u in case["alt"]] or [list(case["units"])]
-        if errs or (res.rc != 0 and not em):
-            rep.violation("%s: legal statement '%s'%s rejected (errors %s); the specification expects %s"
-                          % (NAME, stmt, where, errs, " or ".join(map(str, adm))), case=case, files=files,
-                          key=x_key(case, "rejected-legal"))
-            return False
+        if errs or (rc != 0 and not em):
+            return ("rejected-legal", "legal statement %%s rejected (errors %s); the specification expects %s"
+                    % (errs, " or ".join(map(str, adm))), False)
         if em not in adm:
-            rep.violation("%s: '%s'%s assembled to %s, the specification prescribes %s"
-                          % (NAME, stmt, where, em, " or ".join(map(str, adm))), case=case, files=files,
-                          key=x_key(case, "wrong-units"))
-            return False
-        return True
-    # reject
+            return ("wrong-units", "%%s assembled to %s, the specification prescribes %s" % (em, " or ".join(map(str, adm))), False)
+        return None
     why = {"ram30": "bytes 30H..3FH are not bit addressable on the MCS-51 (20H..2FH are)",
            "nobit": "this byte is not bit addressable"}.get(case["zone"], "operand out of range")
     if em:
-        rep.violation("%s: '%s'%s has no encoding (%s) but %s was emitted%s"
-                      % (NAME, stmt, where, why, em, " next to the error" if errs else
-                         (" with a warning only" if warned else " and no message at all")),
-                      case=case, files=files,
-                      key=x_key(case, "truncated-with-error" if errs else "accepted-out-of-range", warned))
-        return False
-    if not errs and res.rc == 0:
-        rep.violation("%s: '%s'%s has no encoding (%s) but no error was reported" % (NAME, stmt, where, why),
-                      case=case, files=files, key=x_key(case, "accepted-out-of-range", warned))
-        return False
-    return True
+        return ("truncated-with-error" if errs else "accepted-out-of-range",
+                "%%s has no encoding (%s) but %s was emitted%s"
+                % (why, em, " next to the error" if errs else (" with a warning only" if o["warned"] else " and no message at all")),
+                o["warned"])
+    if not errs:
+        return ("accepted-out-of-range", "%%s has no encoding (%s) but no error was reported" % why, o["warned"])
+    return None
 
 
 def replay_x(rep, bld, cases):
+    """screening in batches (emit / diag events are per line), every case that does not show exactly the expected picture -
+    and, without hooks, nothing is screened: the phase needs the hook build - is assembled alone (definitions, context,
+    statement) and judged on that run"""
     from checks import c14
-    jobs, metas = [], []
     for c in cases:
-        src, ln, cln = x_source(c)
-        jobs.append({"sources": {"a.asm": src}, "opts": ["-q"], "events": "emit,diag" if bld.hooks else None})
-        metas.append((src, ln, cln))
-    results = c14._many(bld, jobs)
-    bad = 0
-    for c, (src, ln, cln), res in zip(cases, metas, results):
         rep.evaluated()
         rep.distinct((NAME, "x", c["id"], isa.stmt_text(c), tuple(tuple(d) for d in c["pre"]), c["pc"]), True)
+    acc = [c for c in cases if c["exp"] == "units"]
+    oth = [c for c in cases if c["exp"] != "units"]
+    groups = [acc[i:i + X_ACC_CHUNK] for i in range(0, len(acc), X_ACC_CHUNK)] + \
+             [oth[i:i + X_CHUNK] for i in range(0, len(oth), X_CHUNK)]
+    metas = [x_source(g) for g in groups]
+    results = c14._many(bld, [{"sources": {"a.asm": src}, "opts": ["-q"], "events": "emit,diag", "timeout": 120}
+                              for (src, where) in metas])
+    suspects = []
+    for g, (src, where), res in zip(groups, metas, results):
+        rep.traces(1)
+        if res.timeout or res.sig is not None or res.trace is None:
+            suspects += g
+            continue
+        suspects += [c for c, w in zip(g, where) if decide_x(c, x_observe(res, w), res.rc) is not None]
+    metas = [x_source([c]) for c in suspects]
+    results = c14._many(bld, [{"sources": {"a.asm": src}, "opts": ["-q"], "events": "emit,diag"} for (src, where) in metas])
+    bad = 0
+    for c, (src, where), res in zip(suspects, metas, results):
+        stmt = "'%s'" % " ".join(isa.stmt_text(c).split("\t")).strip()
+        if c["pc"] >= 0:
+            stmt += " at %d" % c["pc"]
+        if c["pre"]:
+            stmt += " after the definition [%s]" % "; ".join(" ".join(d) for d in c["pre"])
         x = isa_hist.ctx_of(c)
-        if bld.hooks and res.trace is not None:
-            em, errs = c14._observe(bld, CFG, res, ln)
-            xem, xerrs = c14._observe(bld, CFG, res, cln) if cln else ([], [])
-            if x is not None and not em and errs and errs == xerrs and res.rc != 0:
-                # _observe fills in the errors of other lines when a line shows none: keep them apart
-                e2, r2 = isa.emitted_by_line(res.trace, CFG)
-                errs, xerrs = r2.get(ln, []) or errs, r2.get(cln, [])
-        else:
-            allu, errs = c14._observe(bld, CFG, res, ln)
-            n = len(x["units"]) if x is not None else 0
-            xem, xerrs, em = allu[:n], [], allu[n:]
-        if not judge_x(rep, c, src, ln, cln, res, em, errs, xem, xerrs):
+        if x is not None:
+            stmt += " on the line directly after the statement '%s'" % " ".join(isa.stmt_text(x).split("\t")).strip()
+        files = {"a.asm": src, "out.txt": res.out + res.err}
+        if res.timeout or res.sig is not None or res.trace is None:
+            rep.violation("%s: assembler crashed/hung on %s" % (NAME, stmt), case=c, files=files, key=x_key(c, "crash"))
             bad += 1
-    rep.traces(len(cases))
-    return bad
+            continue
+        d = decide_x(c, x_observe(res, where[0]), res.rc)
+        if d is not None:
+            kind, text, warned = d
+            key = x_key(c, kind, warned)
+            if kind == "context":
+                key["form"] = x["id"] + " (as context statement)"
+            rep.violation("%s: %s" % (NAME, (text % stmt) if "%s" in text else text), case=c, files=files, key=key)
+            bad += 1
+    rep.traces(len(suspects))
+    return len(suspects), bad
 
 
 # ------------------------------------------------------------------------------------------------ (V) golden programs
@@ -277,32 +304,44 @@ def run(rep, bld, tier):
     def tlc_task(t):
         kind, a = t
         return gen_x(salts[0], not quick) if kind == "x" else gen_slice(a[0], a[2], a[3])
-    with Phase("isa8051 TLC: %d case generator runs (Isa8051_Hist) + Isa8051X" % len(todo)):
-        done = pmap(tlc_task, tasks, workers=5)
-    (rx, xcases), gens = done[0], done[1:]
-    for (cpu, aslcpu, kk, salt), (r, cases) in zip(todo, gens):
-        name = "Isa8051_Hist(%s,K=%d,Salt=%d)" % (cpu, kk, salt)
+    # all TLC runs start together (single-worker JVMs); every result is replayed as soon as it is there, the small
+    # Isa8051X run first, while the others are still running
+    import concurrent.futures as cf
+    pool = cf.ThreadPoolExecutor(max_workers=5)
+    futs = [pool.submit(tlc_task, t) for t in tasks]
+    try:
+        with Phase("isa8051 TLC Isa8051X (%d Isa8051_Hist runs started with it)" % len(todo)):
+            rx, xcases = futs[0].result()
+        name = "Isa8051X(Salt=%d,Deep=%s)" % (salts[0], not quick)
         with Phase("isa8051 replay " + name):
-            rep.model(name, r)
-            na, no, ns, nc = c14.replay_hist(rep, bld, CFG, cpu, aslcpu, cases)
-            ctxs = [isa_hist.ctx_of(c) for c in cases]
-            rep.part(name, forms=len({c["id"] for c in cases}), statements=len(cases), expected_units=na,
-                     expected_reject_or_convention=no, assembled_alone=ns, assembled_in_context=nc,
-                     statement_addresses=sorted({c["pc"] for c in cases if c["pc"] >= 0}),
-                     statements_with_context=sum(1 for x in ctxs if x is not None),
-                     context_forms=len({x["id"] for x in ctxs if x is not None}))
-    name = "Isa8051X(Salt=%d,Deep=%s)" % (salts[0], not quick)
-    with Phase("isa8051 replay " + name):
-        rep.model(name, rx)
-        bad = replay_x(rep, bld, xcases)
-        bits = [c for c in xcases if c["sp"]]
-        rep.part(name, cases=len(xcases), bit_notation=len(bits), generic_jmp_call=len(xcases) - len(bits),
-                 expected_reject=sum(1 for c in xcases if c["exp"] == "reject"),
-                 two_admissible_encodings=sum(1 for c in xcases if len(c["alt"]) > 1),
-                 spellings=sorted({c["sp"] for c in bits}), not_as_expected=bad)
-        for c in [c for c in bits if c["exp"] == "units"][:1] + [c for c in xcases if len(c["alt"]) > 1][:1]:
-            rep.sample({"isa": NAME, "definitions": c["pre"], "statement": isa.stmt_text(c).strip(), "pc": c["pc"],
-                        "expected": c["exp"], "admissible_units": c["alt"] or [c["units"]]})
+            rep.model(name, rx)
+            if bld.hooks:
+                nsus, bad = replay_x(rep, bld, xcases)
+            else:
+                nsus = bad = 0
+                rep.drift("isa8051: hook events unavailable, the Isa8051X cases (byte.b notation, generic JMP / CALL) were not replayed")
+            bits = [c for c in xcases if c["sp"]]
+            rep.part(name, cases=len(xcases), bit_notation=len(bits), generic_jmp_call=len(xcases) - len(bits),
+                     expected_reject=sum(1 for c in xcases if c["exp"] == "reject"),
+                     two_admissible_encodings=sum(1 for c in xcases if len(c["alt"]) > 1),
+                     spellings=sorted({c["sp"] for c in bits}), assembled_alone=nsus, not_as_expected=bad)
+            for c in [c for c in bits if c["exp"] == "units"][:1] + [c for c in xcases if len(c["alt"]) > 1][:1]:
+                rep.sample({"isa": NAME, "definitions": c["pre"], "statement": isa.stmt_text(c).strip(), "pc": c["pc"],
+                            "expected": c["exp"], "admissible_units": c["alt"] or [c["units"]]})
+        for (cpu, aslcpu, kk, salt), fut in zip(todo, futs[1:]):
+            name = "Isa8051_Hist(%s,K=%d,Salt=%d)" % (cpu, kk, salt)
+            with Phase("isa8051 TLC + replay " + name):
+                r, cases = fut.result()
+                rep.model(name, r)
+                na, no, ns, nc = c14.replay_hist(rep, bld, CFG, cpu, aslcpu, cases)
+                ctxs = [isa_hist.ctx_of(c) for c in cases]
+                rep.part(name, forms=len({c["id"] for c in cases}), statements=len(cases), expected_units=na,
+                         expected_reject_or_convention=no, assembled_alone=ns, assembled_in_context=nc,
+                         statement_addresses=sorted({c["pc"] for c in cases if c["pc"] >= 0}),
+                         statements_with_context=sum(1 for x in ctxs if x is not None),
+                         context_forms=len({x["id"] for x in ctxs if x is not None}))
+    finally:
+        pool.shutdown(wait=True, cancel_futures=True)
     if vfut is not None:
         with Phase("isa8051 golden programs vs table (waiting for the background run)"):
             execs, names, v = vfut.result()
@@ -317,5 +356,10 @@ def run(rep, bld, tier):
         if not v.accepted:
             rep.drift("isa8051: golden test %s: %s (a slip in spec/Isa8051.tla or an encoding defect)"
                       % (names[v.fail_exec], v.detail))
+    for g in sorted(c14.GROUPS):
+        if g[0] == NAME:
+            log("[C14] mismatch group isa=%s cpu=%s form=%s kind=%s pc=%s: %d statements" % (g + (c14.GROUPS[g],)))
+    for g in sorted(XGROUPS):
+        log("[C14] mismatch group isa=%s notation=%s zone=%s kind=%s: %d statements" % ((NAME,) + g + (XGROUPS[g],)))
     rep.assumptions.append("isa8051: MCS-51 table of spec/Isa8051.tla (8051 / 8052 instruction set, no 80C251 / 80C390 "
                            "extensions); statement addresses 80H..0FF7CH; decimal operand spellings")
